@@ -66,15 +66,24 @@ def uniform_axioms(ctx, at=None):
 _ENV = {}
 
 
+_COMMON = dict(friction_range=(0.3, 0.9), friction_loss_scale_range=(0.6, 1.8), armature_scale_range=(1.0, 1.2), mass_scale_range=(0.8, 1.25), torso_offset_range=(0.5, 2.0),
+               push_interval_range=(4.0, 9.0), push_magnitude_range=(0.2, 1.7))
+_LOCO = dict(lin_vel_x_range=(-0.8, 1.2), lin_vel_y_range=(-0.4, 0.3), ang_vel_yaw_range=(-0.6, 0.7), gait_frequency_range=(1.1, 1.6))
+
+
+def configured(kind, name=None):
+    """the constructor arguments the contracts' environments are built with.  Obligations compare against THESE values (what the user configured), never against attributes read
+    back from the environment object: an `__init__` that stores a range under the wrong name is a defect, not the specification."""
+    kw = dict(_COMMON, **(_LOCO if kind == "locomotion" else {}))
+    return kw if name is None else jnp.asarray(kw[name], f32)
+
+
 def env_of(kind):
     if kind not in _ENV:
         from lerax.env.unitree.g1 import locomotion, standing, standup
         # NON-default ranges: a call site that forgets to forward a configured range falls back to randomize_model's defaults and is caught
         # ... and every configurable range differs from every other one, so that a range used in the wrong place (copy-paste of a bound) is visible
-        extra = dict(lin_vel_x_range=(-0.8, 1.2), lin_vel_y_range=(-0.4, 0.3), ang_vel_yaw_range=(-0.6, 0.7), gait_frequency_range=(1.1, 1.6)) if kind == "locomotion" else {}
-        _ENV[kind] = {"locomotion": locomotion.G1Locomotion, "standing": standing.G1Standing, "standup": standup.G1Standup}[kind](
-            friction_range=(0.3, 0.9), friction_loss_scale_range=(0.6, 1.8), armature_scale_range=(1.0, 1.2), mass_scale_range=(0.8, 1.25), torso_offset_range=(0.5, 2.0),
-            push_interval_range=(4.0, 9.0), push_magnitude_range=(0.2, 1.7), **extra)
+        _ENV[kind] = {"locomotion": locomotion.G1Locomotion, "standing": standing.G1Standing, "standup": standup.G1Standup}[kind](**configured(kind))
     return _ENV[kind]
 
 
@@ -385,8 +394,8 @@ def unit_initial(kind):
                what="the episode's model is randomize_model applied once to the NOMINAL (base) model")
         if len(rm) == 1:
             c = rm[0]
-            exp = [env.nominal_friction_loss, env.nominal_armature, env.nominal_body_mass, jnp.asarray(env.friction_range, f32), jnp.asarray(env.friction_loss_scale_range, f32),
-                   jnp.asarray(env.armature_scale_range, f32), jnp.asarray(env.mass_scale_range, f32), jnp.asarray(env.torso_offset_range, f32)]
+            exp = [env.nominal_friction_loss, env.nominal_armature, env.nominal_body_mass, configured(kind, "friction_range"), configured(kind, "friction_loss_scale_range"),
+                   configured(kind, "armature_scale_range"), configured(kind, "mass_scale_range"), configured(kind, "torso_offset_range")]
             ok = True
             for a, e in zip(c.operands[1:], exp):
                 e = np.asarray(e)
@@ -411,11 +420,11 @@ def unit_initial(kind):
         S.prove(f"{kind}.initial/gait-phase", ctx, sand(ir.seq(st.gait_phase.at((0,)), 0), ir.seq(st.gait_phase.at((1,)), PI)), function=fn, what="gait phases start at [0, pi]")
         ax = uniform_axioms(ctx)
         if kind == "locomotion":
-            rngs = [env.lin_vel_x_range, env.lin_vel_y_range, env.ang_vel_yaw_range]
+            rngs = [configured(kind, n_) for n_ in ("lin_vel_x_range", "lin_vel_y_range", "ang_vel_yaw_range")]
             goal = sand(*[z3.Or(st.command.at((i_,)) == 0, z3.And(st.command.at((i_,)) >= ir.zreal(ir.const_float(np.float32(r[0]))), st.command.at((i_,)) <= ir.zreal(ir.const_float(np.float32(r[1])))))
                           for i_, r in enumerate(rngs)])
             S.prove(f"{kind}.initial/command-within-range", ctx, goal, hyps=ax, function=fn, replay=native_command_replay, what="the velocity command lies within its configured ranges (or is the zero command)")
-            gf = env.gait_frequency_range
+            gf = configured(kind, "gait_frequency_range")
             S.prove(f"{kind}.initial/gait-frequency-within-range", ctx, z3.And(st.gait_frequency.scalar() >= ir.zreal(ir.const_float(np.float32(gf[0]))),
                                                                                 st.gait_frequency.scalar() <= ir.zreal(ir.const_float(np.float32(gf[1])))), hyps=ax, function=fn,
                     what="the gait frequency lies within its configured range")
@@ -423,7 +432,7 @@ def unit_initial(kind):
             S.prove(f"{kind}.initial/zero-command", ctx, sand(*[ir.seq(st.command.at((i_,)), 0) for i_ in range(3)]), function=fn, what="standing tasks start with the zero command")
             gfs = st.gait_frequency.scalar()
             if hasattr(env, "gait_frequency_range") and not ir.is_const(gfs):
-                gf = env.gait_frequency_range
+                gf = configured(kind, "gait_frequency_range")
                 S.prove(f"{kind}.initial/gait-frequency-within-range", ctx, z3.And(gfs >= ir.zreal(ir.const_float(np.float32(gf[0]))), gfs <= ir.zreal(ir.const_float(np.float32(gf[1])))),
                         hyps=ax, function=fn, what="the gait frequency lies within its configured range")
             else:
@@ -437,15 +446,15 @@ def native_command_replay(model):
     keys = jax.random.split(jax.random.key(0), 2048)
     out = jax.jit(jax.vmap(lambda k: env.sample_command(key=k)))(keys)
     cmd = np.asarray(out[0] if isinstance(out, tuple) else out, np.float64)
-    rngs = [env.lin_vel_x_range, env.lin_vel_y_range, env.ang_vel_yaw_range]
+    rngs = [configured("locomotion", n_) for n_ in ("lin_vel_x_range", "lin_vel_y_range", "ang_vel_yaw_range")]
     bad = {}
     for i, (lo, hi) in enumerate(rngs):
         col = cmd[:, i]
         viol = (col != 0) & ((col < lo - 1e-6) | (col > hi + 1e-6))
         if viol.any():
-            bad[["lin_vel_x", "lin_vel_y", "ang_vel_yaw"][i]] = dict(configured_range=[lo, hi], out_of_range=int(viol.sum()), min=float(col.min()), max=float(col.max()))
+            bad[["lin_vel_x", "lin_vel_y", "ang_vel_yaw"][i]] = dict(configured_range=[float(lo), float(hi)], out_of_range=int(viol.sum()), min=float(col.min()), max=float(col.max()))
     if bad:
-        return dict(reproduced=True, route="R1 (real G1Locomotion.sample_command, 2048 keys)", inputs=dict(ranges=[list(r) for r in rngs], key_seed=0), observed=bad)
+        return dict(reproduced=True, route="R1 (real G1Locomotion.sample_command, 2048 keys)", inputs=dict(ranges=[[float(x) for x in r] for r in rngs], key_seed=0), observed=bad)
     return dict(reproduced=False, note="2048 commands: each component within its own configured range (or zero)")
 
 
